@@ -85,7 +85,11 @@ func c07Gen(r *rand.Rand, tier string) []Case {
 	// with the fee market in force and switched off, the declared fee exactly at the floor
 	out = append(out, Case{"cpay 1000000000000000000000000000 200000 200000000000000 # ext=0", "cpay 1000000000000000000000000000 200000 200000000000000 # ext=1 tip=0",
 		"cpay 1000000000000000000000000000 200000 200000000000000 # ext=1 tip=0 market=nobasefee", "cpay 1000000000000000000000000000 200000 200000000000000 # ext=1 tip=1000000000 market=nobasefee",
-		"cpay 2000000000000000000000000000 200000 400000000000000 # ext=1 tip=5"})
+		"cpay 2000000000000000000000000000 200000 400000000000000 # ext=1 tip=5",
+		"cpay 1000000000000000000000000000 200000 200000000000000 # ext=1 tip=0 tip2=9000000000", "cpay 1000000000000000000000000000 200000 200000000000000 # ext=1 tip=9000000000 tip2=0",
+		// a fractional minimum gas price and a declared fee that is not a multiple of the gas limit
+		"cpay 2000000000500000000000000000 100000 200000000050000 # ext=0", "cpay 2000000000500000000000000000 100000 200000000050000 # ext=1 tip=9000000000",
+		"cpay 2000000000500000000000000000 100000 200000000100000 # ext=0", "cpay 2000000000500000000000000000 100001 200002000050001 # ext=0"})
 	for i := 0; i < n; i++ {
 		c := Case{"deploy"}
 		mults := []string{"0", "500000000000000000", "1000000000000000000", fmt.Sprint(r.Int63n(1_000_000_000_000_000_000))}
@@ -446,6 +450,10 @@ func c07Exec(c Case) (outs []string, fails []Failure, tags []string) {
 					fee = sdk.NewCoins(sdk.NewCoin(nw.GetDenom(), sdk.NewIntFromBigInt(a)))
 				}
 				dec := cosmosante.NewMinGasPriceDecorator(app.FeeMarketKeeper, app.EvmKeeper)
+				// the op line for the model carries the base fee the decorator sees (it bounds what would be charged)
+				if bf := app.EvmKeeper.GetBaseFee(ctx, app.EvmKeeper.GetParams(ctx).ChainConfig.EthereumConfig(app.EvmKeeper.ChainID())); bf != nil && len(f) == 4 {
+					c[i] = strings.Join(append(f[:4:4], bf.String()), " ")
+				}
 				_, err := dec.AnteHandle(ctx.WithIsCheckTx(false), c07FeeTx{gas: gas, fee: fee}, false, func(ctx sdk.Context, _ sdk.Tx, _ bool) (sdk.Context, error) { return ctx, nil })
 				out = "accept"
 				if err != nil {
@@ -488,7 +496,17 @@ func c07Exec(c Case) (outs []string, fails []Failure, tags []string) {
 					if e != nil {
 						panic(e)
 					}
-					b.(authtx.ExtensionOptionsTxBuilder).SetExtensionOptions(opt)
+					opts := []*codectypes.Any{opt}
+					if kv["tip2"] != "" {
+						// the option a second time, with another tip (valid input: every such option is admitted; the first counts)
+						opt2, e := codectypes.NewAnyWithValue(&haqqtypes.ExtensionOptionDynamicFeeTx{MaxPriorityPrice: sdkmath.NewIntFromBigInt(mustBig(kv["tip2"]))})
+						if e != nil {
+							panic(e)
+						}
+						opts = append(opts, opt2)
+						tags = append(tags, "dynamic-fee-option-twice")
+					}
+					b.(authtx.ExtensionOptionsTxBuilder).SetExtensionOptions(opts...)
 					tags = append(tags, "cosmos-tx-with-dynamic-fee-option")
 				}
 				acc := app.AccountKeeper.GetAccount(ctx, key.AccAddr)
